@@ -284,6 +284,19 @@ def _archive_check(w, res):
                         f"{path} row {i}: archived {exp[j] if j < len(exp) else None!r}, read back "
                         f"{got[j] if j < len(got) else None!r} (column {col!r})")
                 break
+        # ... and exactly what the tags' archive() returned for that row (whatever the archiver did in between)
+        archived = fs.rows_archived.get(path, [])
+        for i, (got, exp) in enumerate(zip(rows, archived)):
+            if exp is None or len(got) != len(header):
+                continue
+            if got[1:] != exp:
+                j = next((k for k, (a, b) in enumerate(zip(got[1:], exp)) if a != b), min(len(got) - 1, len(exp)))
+                col = header[j + 1] if j + 1 < len(header) else "?"
+                res.add("C39", "C39.cell_differs_from_archived_value", col.split(" [")[0], w.tick_no,
+                        f"{path} row {i}: the tag's archive() returned {exp[j] if j < len(exp) else None!r}, the file reads "
+                        f"back {got[j + 1] if j + 1 < len(got) else None!r} (column {col!r})")
+                break
+            res.probe("archive_rows_compared_with_archive_values")
         res.probe("archive_rows_checked", len(rows))
     res.probe("archive_files_checked", n_files)
 
